@@ -125,6 +125,11 @@ def quantile_(array, inv_idx, *, q, axis, skipna, group_idx, dtype=None, out=Non
     result = _lerp(loval, hival, t=gamma, out=out, dtype=dtype)
     if not skipna and np.any(nanmask):
         result[..., nanmask] = np.nan
+    elif skipna:
+        # actual_sizes was decremented above: groups without any valid value have no quantile
+        allnan = actual_sizes < 0
+        if np.any(allnan):
+            result[..., allnan] = np.nan
     return result
 
 
